@@ -95,6 +95,14 @@ func main() {
 		os.Exit(runSelftest(os.Args[2:]))
 	case "multi":
 		os.Exit(runMulti(os.Args[2:]))
+	case "cfg":
+		p, err := eng.Load(eng.LoadOpts{})
+		if err != nil {
+			fmt.Println(err)
+			os.Exit(2)
+		}
+		g := p.GraphOf(os.Args[2])
+		fmt.Println(g.CFG.Format(p.Fset))
 	default:
 		usage()
 	}
